@@ -404,6 +404,30 @@ func (c *ctx) paged() {
 			c.helperp(h, "result", []string{more(1), m.String(), it.page(3, "")}, "paged-single-"+class)
 		})
 	}
+	// ad-hoc command conversations: executing -> next / prev / complete / cancel, an error or
+	// garbage at every step
+	cmd := func(status, extra string) string {
+		return `<command xmlns="http://jabber.org/protocol/commands" sessionid="s1" node="list" status="` + status + `"` + extra + `><actions execute="next"><prev/><next/><complete/></actions><x xmlns="jabber:x:data" type="form"><field var="a"><value>v</value></field></x></command>`
+	}
+	ex, done, canc := cmd("executing", ""), cmd("completed", ""), cmd("canceled", "")
+	convs := [][]string{
+		{ex, ex, done}, {ex, done}, {ex, canc}, {done}, {canc}, {ex}, {ex, errorPageMark + errPayload}, {errorPageMark + errPayload},
+		{ex, ex, errorPageMark + errPayload}, {ex, `text`}, {ex, ``}, {ex, cmd("", "")}, {ex, cmd("bogus", "")},
+		{ex, `<command xmlns="http://jabber.org/protocol/commands" status="canceled"/>`},
+		{ex, `<command xmlns="http://jabber.org/protocol/commands" status="executing"/>`, canc},
+		{cmd("executing", ` xml:lang="en"`), ex, ex, ex, ex, ex},
+	}
+	for _, h := range helpers {
+		if !strings.HasPrefix(h.name, "commands.ForEach.") && h.name != "commands.ExecuteChain" {
+			continue
+		}
+		for _, conv := range convs {
+			c.helperp(h, "result", conv, "command-conversation")
+		}
+		single(parse(canc), nil, func(m *node, class string) {
+			c.helperp(h, "result", []string{ex, m.String()}, "command-single-"+class)
+		})
+	}
 	// history: the fin reply carries the paging trailer
 	hf := helperByName("history.Fetch")
 	for _, fin := range []string{
